@@ -3,3 +3,7 @@ import Z80.Base
 import Z80.Attr
 import Z80.Monad
 import Z80.Gen.All
+import Z80.Spec.Alu
+import Z80.Spec.Exec
+import Z80.Spec.Decode
+import Z80.Spec.Koron
